@@ -13,7 +13,9 @@ LEVEL_TEXT = ('Kernel-checked theorems (Props/C09.v) about the Gallina models of
               'composition and SOR with omega=1 is Gauss-Seidel; for the Kaczmarz step (gauss_seidel_ne, any conjugation function) '
               'the row product after the step is a_i.x + |a_i|^2 delta, so with Dinv = 1/|a_i|^2 the residual of row i is '
               'multiplied by (1 - omega), entries outside the row are untouched and a vector solving every row is a fixed '
-              'point of the sweep.  The same definitions evaluated at PrimFloat must '
+              'point of the sweep; for the column step of gauss_seidel_nr the residual component along the column is multiplied by '
+              '(1 - omega), only x_i and the residual entries of the column change, and a residual orthogonal to the column leaves the '
+              'state unchanged.  The same definitions evaluated at PrimFloat must '
               'reproduce bit-for-bit what the rebuilt working-tree kernels (14 of them) and the Python driver '
               'return, and at Q exactly on dyadic inputs; a dense NumPy restatement of every splitting (all methods, '
               'sweeps, iteration counts, omegas, CSR/BSR, real/complex, single/double) is the property oracle.')
@@ -30,7 +32,7 @@ RULE += (' '
          'Every public call sees a fresh copy of the matrix, half of them with column indices stored in shuffled order; zero initial guess combined with 2-3 iterations every fifth round.')
 TRUSTED = ['pinv_array / LAPACK gelss for block inverses (contract: pseudo-inverse of the diagonal block)',
            'SciPy tobsr/tocsr conversions, get_diagonal']
-PARTIAL = ['block, jacobi_ne / gauss_seidel_nr, Schwarz and polynomial variants: model correspondence + oracle, no row-equation theorem yet',
+PARTIAL = ['block, jacobi_ne, Schwarz and polynomial variants: model correspondence + oracle, no row-equation theorem yet',
            'BSR = CSR equivalence of bsr_gauss_seidel: decided by the oracle (to rounding), not proved']
 NOT_COVERED = ['chebyshev coefficients (C02 treats Chebyshev smoothing as a checked hypothesis)']
 HEADER = ('From Coq Require Import ZArith List QArith PrimFloat.\nImport ListNotations.\n'
